@@ -57,3 +57,9 @@ Example C18_nonvacuous :
       (3, 1, [mkLog 9 [1] 103]); (5, 0, [mkLog 9 [7; 2; 3] 104]); (6, 0, [mkLog 9 [1; 2] 105]) ]
   = Ok [mkLog 9 [1; 2] 101; mkLog 9 [7; 2; 3] 104].
 Proof. vm_compute. reflexivity. Qed.
+
+(* assumptions of the theorems above that had no report next to them *)
+Print Assumptions C18_too_wide_refused.
+Print Assumptions C18_never_panics.
+Print Assumptions C18_reversed_range_empty.
+Print Assumptions C18_topics_positional.
